@@ -1,5 +1,6 @@
 """C20 - inconsistent or unsupported inputs are rejected, never silently processed."""
 import itertools
+import math
 import random
 
 import numpy as np
@@ -95,6 +96,9 @@ def _sym(acc, job, deadline):
             acc.canary(ctx, "canary_bounds", z3.BoolVal(e1 is not None) == in_range)
 
         acc.explore(run, on_ok, deadline=deadline)
+        # non-finite values are not reals: NaN and +-inf are outside (0,1] as well (NaN fails every comparison, whichever way the test is written)
+        for v in (math.nan, math.inf, -math.inf):
+            _conc(acc, "nonfinite_ratio_bound_raises", lambda v=v: cls(ratio_bound=v), f"bounds:{job['moment']}:ratio_nonfinite", {"ratio_bound": repr(v)})
     elif kind == "sym-costs":
         def run():
             a, b = real("cfp"), real("cfn")
@@ -109,6 +113,8 @@ def _sym(acc, job, deadline):
             acc.canary(ctx, "canary_costs", z3.BoolVal(e is not None) == valid)
 
         acc.explore(run, on_ok, deadline=deadline)
+        for v, w in ((math.nan, 1.0), (1.0, math.nan), (-math.inf, 1.0), (math.nan, math.nan)):
+            _conc(acc, "nan_or_negative_infinite_costs_raise", lambda v=v, w=w: red.ErrorRate(costs={"fp": v, "fn": w}), "costs:nonfinite", {"costs": repr((v, w))})
         for bad in ({"fp": 1.0}, {"fp": 1.0, "fn": 1.0, "x": 1.0}, {"fn": 1.0}, [1.0, 1.0], "costs"):
             _conc(acc, "bad_cost_keys_raise", lambda bad=bad: red.ErrorRate(costs=bad), "costs:keys", {"costs": repr(bad)})
     elif kind == "sym-cweight":
@@ -124,6 +130,9 @@ def _sym(acc, job, deadline):
             acc.canary(ctx, "canary_cw", z3.And(cw.e >= 0, cw.e <= 1))
 
         acc.explore(run, on_ok, deadline=deadline)
+        for v in (math.nan, math.inf, -math.inf):
+            _conc(acc, "nonfinite_constraint_weight_raises", lambda v=v: red.GridSearch(ExactLearner(), constraints=red.DemographicParity(), constraint_weight=v),
+                  "cweight:nonfinite", {"cw": repr(v)})
         for v in (0.0, 1.0, 0.5):
             _conc_ok(acc, "valid_constraint_weight_accepted", lambda v=v: red.GridSearch(ExactLearner(), constraints=red.DemographicParity(), constraint_weight=v),
                      "cweight:negative_control", {"cw": v})
